@@ -109,8 +109,13 @@ def hole_of(F, b, part):
             return [Hole("ticker", inner, "ticker")]
         # `<Decimal>.to_string()` of a parameter (possibly the payload of an Option<Decimal> parameter) is Decimal's Display
         root = inner
-        while isinstance(root, tuple) and root and root[0] in ("some", "cast") and len(root) >= 2:
-            root = root[1]
+        while isinstance(root, tuple) and root and len(root) >= 2:
+            if root[0] in ("some", "cast"):
+                root = root[1]
+            elif root[0] == "call" and parse_callee(root[1])[2] in ("filter", "copied", "cloned", "as_ref", "take") and "Option" in root[1] and root[2]:
+                root = root[2][0]       # Option adaptors keep the value they hold: `amount.filter(|v| *v > 0)` is still that Decimal
+            else:
+                break
         if inner is not term and isinstance(root, tuple) and root and root[0] == "param" and root[1] < b.argc and \
                 "rust_decimal::decimal::Decimal" in b.local_ty(root[1] + 1) and not lossy:
             return [Hole("decimal", inner, "decimal")]
@@ -474,8 +479,28 @@ def json_names(F, rep):
     # (b) Operation tags vs normalisation
     oser = [b for b in F.bodies.values() if "ser::Serialize for cgt_core::models::Operation<M>>::serialize" in b.id]
     # the input normaliser: the cgt_core function that rewrites a `&mut serde_json::Value` in place (upper-casing the tag)
+    FOLD = ("to_uppercase", "to_ascii_uppercase", "to_lowercase", "to_ascii_lowercase")
+
+    def norm_family(x):
+        """the normaliser with the same-crate helpers it calls (`canonical_action_name`), two levels"""
+        fam, frontier = [x], [x]
+        for _ in range(2):
+            nxt = []
+            for y in frontier:
+                for _, t in y.calls():
+                    for cid in [t["callee"]] + [a.get("k", {}).get("fn") for a in t["args"] if isinstance(a.get("k"), dict) and "fn" in a.get("k", {})]:
+                        hb = F.bodies.get(cid) if cid else None
+                        if hb is not None and hb.crate == "cgt_core" and hb not in fam and P.user_written(F, hb):
+                            fam.append(hb)
+                            nxt.append(hb)
+                for cid in F.children(y.id):
+                    if F.bodies[cid] not in fam:
+                        fam.append(F.bodies[cid])
+                        nxt.append(F.bodies[cid])
+            frontier = nxt
+        return fam
     norm = [x for x in F.bodies.values() if x.crate == "cgt_core" and x.kind == "fn" and any("&mut serde_json::value::Value" in x.local_ty(k + 1).replace("'_ ", "") for k in range(x.argc))
-            and any(parse_callee(t["callee"])[2] in ("to_uppercase", "to_ascii_uppercase", "to_lowercase", "to_ascii_lowercase") for _, t in x.calls())]
+            and any(parse_callee(t["callee"])[2] in FOLD for y in norm_family(x) for _, t in y.calls())]
     if len(oser) != 1 or len(norm) != 1:
         rep.unresolved("R2", "Operation-tags", f"{len(oser)} derived serializers / {len(norm)} normalisers")
     else:
@@ -488,28 +513,32 @@ def json_names(F, rep):
             strs = _const_strs(oser[0])
             tags = {s for s in strs if s.isupper()}
         nb = norm[0]
-        nstrs = _const_strs(nb)
-        upper = any(parse_callee(t["callee"])[2] in ("to_uppercase", "to_ascii_uppercase") for _, t in nb.calls())
-        lower = any(parse_callee(t["callee"])[2] in ("to_lowercase", "to_ascii_lowercase") for _, t in nb.calls())
+        nfam = norm_family(nb)
+        nstrs = set()
+        for y in nfam:
+            nstrs |= set(_const_strs(y))
+        upper = any(parse_callee(t["callee"])[2] in ("to_uppercase", "to_ascii_uppercase") for y in nfam for _, t in y.calls())
+        lower = any(parse_callee(t["callee"])[2] in ("to_lowercase", "to_ascii_lowercase") for y in nfam for _, t in y.calls())
         remap_keys = set()
         remap_vals = set()
-        tbn = Terms(F, nb, inline_depth=0)
-        for i, t in nb.calls():
-            st, tr, m = parse_callee(t["callee"])
-            if m in ("eq", "ne") and len(t["args"]) == 2:
-                for a in t["args"]:
-                    from flow import _const_through
-                    k = _const_through(nb, a)
-                    if k is not None and "str" in k:
-                        remap_keys.add(k["str"])
-        for s_ in nb.reachable():
-            sw_ = nb.term(s_)
-            if sw_["k"] == "switch":
-                for x in subterms(tbn.operand(sw_["discr"])):
-                    if isinstance(x, tuple) and x and x[0] == "cmp" and x[1] in ("Eq", "Ne"):
-                        for side in (x[2], x[3]):
-                            if isinstance(side, tuple) and side and side[0] == "str":
-                                remap_keys.add(side[1])
+        for y in nfam:
+            tbn = Terms(F, y, inline_depth=0)
+            for i, t in y.calls():
+                st, tr, m = parse_callee(t["callee"])
+                if m in ("eq", "ne") and len(t["args"]) == 2:
+                    for a in t["args"]:
+                        from flow import _const_through
+                        k = _const_through(y, a)
+                        if k is not None and "str" in k:
+                            remap_keys.add(k["str"])
+            for s_ in y.reachable():
+                sw_ = y.term(s_)
+                if sw_["k"] == "switch":
+                    for x in subterms(tbn.operand(sw_["discr"])):
+                        if isinstance(x, tuple) and x and x[0] == "cmp" and x[1] in ("Eq", "Ne"):
+                            for side in (x[2], x[3]):
+                                if isinstance(side, tuple) and side and side[0] == "str":
+                                    remap_keys.add(side[1])
         remap_vals = {s for s in nstrs if s.isupper() and s not in remap_keys and " " not in s and "'" not in s}
         rep.count("operation_tags", sorted(tags))
         rep.count("normaliser_remap", {"keys": sorted(remap_keys), "values": sorted(remap_vals)})
@@ -526,6 +555,37 @@ def json_names(F, rep):
     # (c) Transaction outer names
     tser = [b for b in F.bodies.values() if "ser::Serialize for cgt_core::models::Transaction>::serialize" in b.id]
     tde = [b for b in F.bodies.values() if "models::Transaction as serde_core::de::Deserialize" in b.id]
+    # the hand-written impl may delegate: to the derived Deserialize of a raw helper struct declared at module level, and to a
+    # conversion (`TryFrom<RawTransaction>`) that builds the Transaction — all of them are "the deserializer"
+    if tde:
+        cg = F.callgraph()
+        seen_ids = {b.id for b in tde}
+        # `raw.try_into()` reaches the user's `TryFrom<Raw..> for Transaction` through std's blanket impl, which the call graph
+        # does not look into: conversions INTO Transaction defined in the models module belong to its reader
+        if any(parse_callee(t["callee"])[2] in ("try_into", "try_from", "into", "from") for b in tde for _, t in b.calls()):
+            seen_ids |= {b.id for b in F.bodies.values() if b.id.startswith("<cgt_core::models::Transaction as core::convert::") and "From<" in b.id}
+        frontier = list(seen_ids)
+        for _ in range(4):
+            nxt = []
+            for bid in frontier:
+                for cid in cg.get(bid, ()):
+                    hb = F.bodies.get(cid)
+                    if hb is None or cid in seen_ids or hb.crate != "cgt_core" or "::models::" not in cid:
+                        continue
+                    if "Operation" in cid and "Deserialize" in cid:
+                        continue        # the operation's own (derived) reader is judged in (b)
+                    seen_ids.add(cid)
+                    nxt.append(cid)
+            frontier = nxt
+        # derived Deserialize bodies of the raw helper struct (visitor methods are separate bodies of the same impl)
+        raw_adts = {m.group(1) for bid in seen_ids for m in [re.search(r"<(cgt_core::models::\w+) as serde_core::de::Deserialize", bid)] if m}
+        for b in F.bodies.values():
+            if any(f"{a}" in b.id and "Deserialize" in b.id for a in raw_adts) or any(b.id.startswith(f"<{a} as") and "Deserialize" in b.id for a in raw_adts):
+                seen_ids.add(b.id)
+            for a in raw_adts:
+                if a.split("::")[-1] in b.id and "_::" in b.id and "serde" in b.id:
+                    seen_ids.add(b.id)
+        tde = [F.bodies[x] for x in sorted(seen_ids)]
     if len(tser) == 1 and tde:
         wrote = {c[0] for c in _call_const_args(tser[0], "serialize_entry") + _call_const_args(tser[0], "serialize_field") if c}
         if not wrote:
@@ -553,6 +613,48 @@ def json_names(F, rep):
         rep.unresolved("R2", "Transaction-serde", f"{len(tser)} serializers / {len(tde)} deserializer bodies")
 
 
+def _sniff_outcomes(F, h):
+    """h classifies its input by one `starts_with` test: -> (the starts_with call term, {True: value returned on the true edge,
+    False: value on the false edge}) with values spelled like switch targets (variant index / 0 / 1), else None"""
+    if len(h.blocks) > 40:
+        return None
+    tb = Terms(F, h, inline_depth=0)
+    tests = []
+    for s in h.reachable():
+        t = h.term(s)
+        if t["k"] == "switch":
+            c = tb.operand(t["discr"])
+            if isinstance(c, tuple) and c and c[0] == "call" and parse_callee(c[1])[2] == "starts_with":
+                tests.append((s, t, c))
+    if len(tests) != 1:
+        return None
+    s, t, c = tests[0]
+    false_t = [x for v, x in t["targets"] if v == "0"]
+    if not false_t:
+        return None
+
+    def returned(start, other):
+        only = h.reach_from(start) - h.reach_from(other)
+        vals = set()
+        for i, si, st in h.assigns():
+            if i in only | {start} and st["lhs"]["l"] == 0 and not place_proj(st["lhs"]):
+                rv = st["rv"]
+                if rv["k"] == "agg" and rv.get("variant") is not None:
+                    adt = F.adts.get(rv["adt"])
+                    names = [v["name"] for v in adt["variants"]] if adt else []
+                    if rv["variant"] in names:
+                        vals.add(str(names.index(rv["variant"])))
+                elif rv["k"] == "use":
+                    k = op_const(rv["op"])
+                    if k is not None:
+                        vals.add("1" if k.get("disp") == "true" else "0" if k.get("disp") == "false" else str(k.get("int")))
+        return vals
+    a, b_ = returned(t["otherwise"], false_t[0]), returned(false_t[0], t["otherwise"])
+    if len(a) != 1 or len(b_) != 1 or a == b_:
+        return None
+    return c, {True: next(iter(a)), False: next(iter(b_))}
+
+
 def mcp_routing(F, rep):
     import panics as P
     from flow import effect_helpers
@@ -570,14 +672,42 @@ def mcp_routing(F, rep):
                 c = tb.operand(t["discr"])
                 if isinstance(c, tuple) and c and c[0] == "call" and parse_callee(c[1])[2] == "starts_with":
                     cands.append((b, tb, s, t, c))
+    via = None
+    if not cands:
+        # the test may live in a helper that classifies the input (`match InputFormat::sniff(trimmed) { Json => .., Dsl => .. }`):
+        # the helper's starts_with edges are mapped to the enum variant (or bool) it returns on each, and the caller's switch on
+        # that value is read as the switch on the test
+        for b in F.bodies.values():
+            if b.crate != "cgt_mcp" or b.kind not in ("fn", "method") or not P.user_written(F, b) or b.id not in to_parser or b.id not in to_json:
+                continue
+            tb = Terms(F, b, inline_depth=0)
+            for s in b.reachable():
+                t = b.term(s)
+                if t["k"] != "switch":
+                    continue
+                c = tb.operand(t["discr"])
+                call = c[1] if isinstance(c, tuple) and c and c[0] == "discr" else c
+                if not (isinstance(call, tuple) and call and call[0] == "call" and call[1] in F.bodies):
+                    continue
+                out = _sniff_outcomes(F, F.bodies[call[1]])
+                if out is not None:
+                    cands.append((b, tb, s, t, out[0]))
+                    via = out[1]
     if len(cands) != 1:
         rep.unresolved("R3", "SNIFFER", f"{len(cands)} input sniffers (starts_with test in a function reaching both readers) in cgt_mcp")
         return
     b, tb, s, t, c = cands[0]
     ch = c[2][1]
     is_br = ch == ("int", ord("[")) or ch == ("str", "[")
-    true_t = t["otherwise"]
-    false_t = [x for v, x in t["targets"] if v == "0"]
+    if via is None:
+        true_t = t["otherwise"]
+        false_t = [x for v, x in t["targets"] if v == "0"]
+    else:
+        def edge(val):
+            hit = [x for v, x in t["targets"] if v == val]
+            return hit[0] if hit else t["otherwise"]
+        true_t = edge(via[True])
+        false_t = [edge(via[False])]
     tr = b.reach_from(true_t)
     fr = b.reach_from(false_t[0]) if false_t else set()
     is_json = lambda cal: ("serde_json" in cal and "from_str" in cal) or (cal in to_json and cal not in to_parser)
@@ -645,7 +775,7 @@ def json_reader_domain(F, rep):
     refuses, say, a zero price rejects the JSON rendering of a ledger the DSL parser accepts (seeded change C14-s4)."""
     import rules.c15 as c15
     from rules.c08 import _R
-    cands = [b for b in F.bodies.values() if b.crate == "cgt_core" and "::models::" in b.id and b.kind == "fn" and P.user_written(F, b)
+    cands = [b for b in F.bodies.values() if b.crate == "cgt_core" and "::models::" in b.id and b.kind in ("fn", "method") and P.user_written(F, b)
              and b.argc >= 1 and "Operation<" in b.local_ty(1) and b.ret.replace(" ", "").startswith("core::result::Result<(),alloc::string::String>")]
     if len(cands) != 1:
         rep.unresolved("R5", "json-validation", f"{len(cands)} functions validate an Operation for the JSON reader")
